@@ -57,7 +57,7 @@ def _cl(x):
 class FnContract:
     def __init__(self, file, path, requires=(), ensures=(), decreases=None, loops=None,
                  closures=None, prologue=None, attrs=(), tags=None, ret='ret', drop=False,
-                 rename=None, body_proofs=None, no_ret=False, via=None):
+                 rename=None, body_proofs=None, no_ret=False, via=None, epilogue=None):
         self.file = file
         self.path = path
         self.requires = [_cl(c) for c in requires]
@@ -76,6 +76,7 @@ class FnContract:
         # body_proofs: list of (regex on the source text of the fn body, text inserted BEFORE the match)
         self.body_proofs = body_proofs or []
         self.no_ret = no_ret
+        self.epilogue = epilogue   # ghost text inserted before the closing brace of a body that ends in a statement
         self.used = False
 
 
@@ -318,6 +319,8 @@ class Splicer:
                 for (af, kind, name_re, attr) in self.u.item_attrs:
                     if af == f and kind == r['kind'] and re.fullmatch(name_re, r['name']):
                         ins(s, attr + '\n')
+                if r['kind'] == 'mod' and r.get('inline') and 'brace' in r:
+                    ins(r['brace'][0] + 1, '\n' + self.u.extra_uses + getattr(self.u, 'inline_mod_uses', ''), {'glue': 'inline mod uses'})
                 if r['kind'] in ('impl', 'trait', 'mod') and 'brace' in r:
                     for (bf, kind, name, text) in self.u.block_inserts:
                         if bf == f and kind == r['kind'] and name == r['name']:
@@ -401,6 +404,10 @@ class Splicer:
             if a in ('external_body', 'external'):
                 self.g.count('R9')
                 info[a] = True
+        # R11: a wildcard parameter `_: T` gets a name (Verus wants plain identifier patterns)
+        for pi, prm in enumerate(r['params']):
+            if prm.get('name') == '_' and 'pat' in prm and data[prm['pat'][0]:prm['pat'][1]] == b'_':
+                dele(prm['pat'][0], prm['pat'][1], 'R11', '_p%d' % pi)
         # R6: visibility
         # R7: name the return value
         if r['out_ty'] and not fc.no_ret:
@@ -434,6 +441,9 @@ class Splicer:
         else:
             if spec:
                 ins(r['semi'][0], '\n' + spec.rstrip().rstrip(',') + '\n' + indent[4:], {'contract': fnkey})
+        if r['body'] and fc.epilogue and 'external_body' not in fc.attrs:
+            ins(r['body'][1] - 1, ' ' + fc.epilogue + ' ', {'rule': 'R8'})
+            self.g.count('R8')
         if r['body'] and 'external_body' not in fc.attrs and 'external' not in fc.attrs:
             self.rewrite_body(f, r, data, ins, dele, fc)
         self.fn_range_marks(f, r, ins, fnkey)
@@ -475,7 +485,10 @@ class Splicer:
                     ins(lp['body'][0] + 1, ' proof { ' + ' '.join('reveal_strlit(%s);' % t for t in lits) + ' }', {'rule': 'R8'})
                     self.g.count('R8')
             if spec is None:
-                continue
+                if lp['kind'] == 'for' and getattr(u, 'desugar_for', False):
+                    spec = {}
+                else:
+                    continue
             t = ''
             t += self.fmt_clauses('invariant_except_break', [_cl(c) for c in spec.get('invariant_except_break', [])], 'invariant', fnkey + '#loop%d' % i, f, tags, indent)
             t += self.fmt_clauses('invariant', [_cl(c) for c in spec.get('invariant', [])], 'invariant', fnkey + '#loop%d' % i, f, tags, indent)
@@ -486,9 +499,17 @@ class Splicer:
                 self.g.clause_counts['decreases'] += 1
             for a in spec.get('attrs', []):
                 ins(lp['span'][0], '#[verifier::%s] ' % a)
-            if lp['kind'] == 'for' and spec.get('desugar', True) and u.scope_listed:
-                pass
-            ins(lp['body'][0], '\n' + t + indent[4:], {'contract': fnkey + '#loop%d' % i})
+            if lp['kind'] == 'for' and getattr(u, 'desugar_for', False):
+                # R4: `for PAT in EXPR BODY` -> `{ let mut it = IntoIterator::into_iter(EXPR); loop INV { let Some(PAT) = it.next() else { break; }; BODY' } }`
+                pat = data[lp['pat'][0]:lp['pat'][1]].decode()
+                expr = data[lp['expr'][0]:lp['expr'][1]].decode()
+                itn = '__it%d' % i
+                dele(lp['kw'][0], lp['body'][0], 'R4',
+                     '{ let mut %s = IntoIterator::into_iter(%s); #[verifier::exec_allows_no_decreases_clause] loop\n%s%s' % (itn, expr, t, indent[4:]))
+                ins(lp['body'][0] + 1, ' let Some(%s) = %s.next() else { break; };' % (pat, itn), {'rule': 'R4'})
+                ins(lp['body'][1], ' }', {'rule': 'R4'})
+            else:
+                ins(lp['body'][0], '\n' + t + indent[4:], {'contract': fnkey + '#loop%d' % i})
             if spec.get('body_prologue'):
                 ins(lp['body'][0] + 1, '\n' + indent + spec['body_prologue'] + '\n', {'rule': 'R8'})
                 self.g.count('R8')
@@ -581,15 +602,19 @@ class Splicer:
             # R11: alpha renaming of binders
             for old, new in fc.rename.items():
                 n = 0
-                for mm in re.finditer(r'(?<![A-Za-z0-9_#.])' + re.escape(old) + r'(?![A-Za-z0-9_!])', txt):
-                    # skip method/field positions and path segments
-                    pre = txt[:mm.start()].rstrip()
-                    post = txt[mm.end():].lstrip()
-                    if pre.endswith('::') or post.startswith('::'):
-                        continue
-                    s = b0 + len(txt[:mm.start()].encode())
-                    dele(s, s + len(old.encode()), 'R11', new)
-                    n += 1
+                # binders may also be parameters: cover the parameter list and the body
+                p0 = r['ident'][1]
+                regions = [(p0, data[p0:b0].decode()), (b0, txt)]
+                for (base, rtxt) in regions:
+                    for mm in re.finditer(r'(?<![A-Za-z0-9_#.])' + re.escape(old) + r'(?![A-Za-z0-9_!])', rtxt):
+                        # skip path segments, calls of a function of the same name
+                        pre = rtxt[:mm.start()].rstrip()
+                        post = rtxt[mm.end():].lstrip()
+                        if pre.endswith('::') or post.startswith('::') or post.startswith('('):
+                            continue
+                        s = base + len(rtxt[:mm.start()].encode())
+                        dele(s, s + len(old.encode()), 'R11', new)
+                        n += 1
                 if n == 0:
                     self.lose('binder %s in %s' % (old, fnkey), tags)
 
